@@ -58,6 +58,17 @@ type record struct {
 	Nontrivial bool            `json:"nontrivial"`
 }
 
+// safeCategory shields the run from a Category implementation that calls into the library under test:
+// the library may panic there on a seeded change; the case itself has already been observed under recover.
+func safeCategory(p Prop, in any, obs any) (cat string, nt bool) {
+	defer func() {
+		if r := recover(); r != nil {
+			cat, nt = "category-panicked", true
+		}
+	}()
+	return p.Category(in, obs)
+}
+
 func main() {
 	if len(os.Args) < 2 {
 		fmt.Fprintln(os.Stderr, "usage: harness <prop> [flags]")
@@ -151,7 +162,7 @@ func main() {
 		if err != nil {
 			panic(err)
 		}
-		cat, nt := p.Category(it.in, obs)
+		cat, nt := safeCategory(p, it.in, obs)
 		cats[cat]++
 		srcs[it.src]++
 		key := string(inJ)
